@@ -344,6 +344,13 @@ func cmdRun(args []string) {
 	defer os.RemoveAll(b.tmp)
 	buildS := time.Since(t0).Seconds()
 
+	if tr := os.Getenv("VERIF_TRACE"); tr != "" {
+		out, se, _ := runWorker(b.worker, 0, time.Minute, "trace", prop, *tier, tr)
+		os.Stdout.Write(out)
+		os.Stderr.Write(se)
+		os.RemoveAll(b.tmp)
+		os.Exit(0)
+	}
 	out, se, err := runWorker(b.worker, 0, time.Minute, "list", prop, *tier)
 	if err != nil {
 		os.RemoveAll(b.tmp)
